@@ -1,6 +1,9 @@
 package fsm
 
 import (
+	"context"
+
+	"github.com/canopy-network/canopy/lib"
 	"github.com/canopy-network/canopy/lib/crypto"
 )
 
@@ -75,4 +78,62 @@ func ZZ_C04_deduct_fees() {
 		zzReach("C04.fee.err")
 	}
 	zzCheckConserved(sm, "fee", total, errOrNil(err), 0)
+}
+
+// Slash: burning a percentage of a validator's stake lowers the total by exactly the burned
+// amount - also when the stake rounds down to zero and the validator record is deleted.
+//
+//zz:harness mode=int unwind=60
+//zz:reach C04.slash.done
+func ZZ_C04_slash_burn() {
+	sm, _ := zzFSM(5)
+	vals := zzStakingWorld(sm, 1)
+	zzAssume(!vals[0].Delegate)
+	sup0, _ := sm.GetSupply()
+	before := sup0.Total
+	sum0, ok0 := zzSumWorld(sm)
+	zzAssume(ok0 && sum0 == before) // invariant on the pre-state (established by SetValidators)
+	params, _ := sm.GetParamsVal()
+	pct := zzN64("percent")
+	zzAssume(pct <= 100)
+	v, _ := sm.GetValidator(crypto.NewAddress(vals[0].Address))
+	stake := v.StakedAmount
+	err := sm.SlashValidator(v, 1, pct, params)
+	zzAssert("C04.slash.returns-nil", err == nil)
+	sm.ResetCaches()
+	sum, ok := zzSumWorld(sm)
+	sup, _ := sm.GetSupply()
+	zzAssert("C04.slash.no-component-wraps", ok)
+	zzAssert("C04.slash.total-equals-sum", sup.Total == sum)
+	zzAssert("C04.slash.total-only-decreases-by-at-most-the-stake", sup.Total <= before && before-sup.Total <= stake)
+	zzReach("C04.slash.done")
+}
+
+// A block of two send transactions (account 0 pays account 1, then account 1 pays account 2, any
+// amounts and fees, so that the first may fail after its fee was deducted and the second runs on
+// whatever the first left behind) conserves the supply: after ApplyTransactions the recorded total
+// still equals the sum of what is actually stored.
+//
+//zz:harness mode=int unwind=60 maxpaths=60000 timebudget=1500 replay=model
+//zz:reach C04.block.done C04.block.first-failed
+func ZZ_C04_block_of_two_sends() {
+	w := zzWorldValues()
+	sm, _ := zzBuildWorld(w)
+	sup0, _ := sm.GetSupply()
+	s1 := zzTxSpec{from: 0, to: 1, signer: 0, amount: zzN64("t1.amount"), fee: zzN64("t1.fee"), created: 10, time: 1, net: 1, chain: 1}
+	s2 := zzTxSpec{from: 1, to: 2, signer: 1, amount: zzN64("t2.amount"), fee: zzN64("t2.fee"), created: 10, time: 2, net: 1, chain: 1}
+	r := &lib.ApplyBlockResults{}
+	if sm.ApplyTransactions(context.Background(), [][]byte{zzSendTxBytes(s1), zzSendTxBytes(s2)}, r, false) != nil {
+		return
+	}
+	if len(r.Failed) > 0 {
+		zzReach("C04.block.first-failed")
+	}
+	sm.ResetCaches()
+	sum, ok := zzSumWorld(sm)
+	sup, _ := sm.GetSupply()
+	zzAssert("C04.block.no-component-wraps", ok)
+	zzAssert("C04.block.total-unchanged", sup.Total == sup0.Total)
+	zzAssert("C04.block.total-equals-sum", sum == sup.Total)
+	zzReach("C04.block.done")
 }
